@@ -31,6 +31,17 @@ func main() {
 			usage()
 		}
 		os.Exit(replay(os.Args[2]))
+	case "schedworker":
+		runtime.GOMAXPROCS(1)
+		schedWorker()
+		return
+	case "schedconfirm":
+		runtime.GOMAXPROCS(1)
+		schedConfirm()
+		return
+	case "sched1":
+		sched1()
+		return
 	case "script":
 		// check script <suite> <event>;<event>;...   (dev aid for writing seeds)
 		script(os.Args[2], os.Args[3:])
